@@ -29,7 +29,9 @@ from sym_metanet.errors import EngineNotFoundError
 P = MODEL_PARAMS[0]
 SPIES = ("spyNP", "spySX", "spyMX")
 OPS = ([("use_name", "numpy"), ("use_name", "casadi"), ("use_name", "bogus"), ("use_obj",)]
-       + [("use_spy", s) for s in SPIES] + [("get",), ("step", None)] + [("step", s) for s in SPIES])
+       + [("use_spy", s) for s in SPIES] + [("get",), ("step", None)] + [("step", s) for s in SPIES]
+       # a step that is bound to fail (the sampling time is missing): the selection must survive the exception
+       + [("stepfail", None), ("stepfail", "spyNP"), ("stepfail", "spyMX")])
 
 KIND_TYPES = {"numpy": (np.ndarray, np.floating, float), "SX": (cs.SX,), "MX": (cs.MX,)}
 
@@ -137,6 +139,24 @@ def run_history(spec: NetSpec, hist, st: Stats):
             elif k == "get":
                 if engines.get_current_engine() is not current or sym_metanet.engine is not current:
                     bad("get/wrong", f"get_current_engine() is {engines.get_current_engine()!r}, model says {current!r}")
+            elif k == "stepfail":
+                explicit = spies[op[1]] if op[1] else None
+                bad_P = {k_: v for k_, v in P.items() if k_ != "T"}
+                try:
+                    if explicit is None:
+                        built.net.step(**bad_P)
+                    else:
+                        built.net.step(engine=explicit, **bad_P)
+                    raised = False
+                except Exception:  # noqa: BLE001
+                    raised = True
+                if not raised:
+                    bad("stepfail/accepted", "a step without the sampling time did not raise")
+                if engines.get_current_engine() is not current or sym_metanet.engine is not current:
+                    bad("step/selection-changed-by-failed-step", f"after a failing step the current engine is "
+                        f"{engines.get_current_engine()!r}, it was {current!r}")
+                    current = engines.get_current_engine()
+                built = build(spec)  # the failed step may leave the elements half initialised: continue on fresh ones
             elif k == "step":
                 explicit = spies[op[1]] if op[1] else None
                 st.inc("executions")
